@@ -208,6 +208,34 @@ fn read_fault_due() -> bool {
 
 thread_local! {
     static TL_READ_STALL: Cell<Option<(usize, usize)>> = const { Cell::new(None) };
+    /// every open of a data file for reading by this thread stalls (round i until `stall_round_release(i)`)
+    static TL_OPEN_STALL_ALL: Cell<bool> = const { Cell::new(false) };
+}
+static STALL_ROUND_ENTERED: AtomicUsize = AtomicUsize::new(0);
+static STALL_ROUND_RELEASED: AtomicUsize = AtomicUsize::new(0);
+/// Controlling thread, before the stalling thread starts.
+pub fn stall_rounds_reset() {
+    STALL_ROUND_ENTERED.store(0, Ordering::SeqCst);
+    STALL_ROUND_RELEASED.store(0, Ordering::SeqCst);
+}
+pub fn stall_every_open_on_this_thread(on: bool) {
+    TL_OPEN_STALL_ALL.with(|c| c.set(on));
+}
+pub fn stall_round_entered() -> usize {
+    STALL_ROUND_ENTERED.load(Ordering::SeqCst)
+}
+pub fn stall_round_release(i: usize) {
+    STALL_ROUND_RELEASED.store(i, Ordering::SeqCst);
+}
+fn open_stall_point() {
+    if !TL_OPEN_STALL_ALL.try_with(|c| c.get()).unwrap_or(false) {
+        return;
+    }
+    let i = STALL_ROUND_ENTERED.fetch_add(1, Ordering::SeqCst) + 1;
+    let t0 = mono_ns();
+    while STALL_ROUND_RELEASED.load(Ordering::SeqCst) < i && mono_ns() - t0 < 10_000_000_000 {
+        std::thread::sleep(std::time::Duration::from_micros(100));
+    }
 }
 /// The `n`-th read-path call (open of a data file for reading, mmap of it) of this thread takes
 /// until `stall_release` (a slow disk); the thread keeps whatever it holds meanwhile.
@@ -379,6 +407,7 @@ unsafe fn do_open(path: *const c_char, flags: c_int, mode: libc::mode_t, label: 
     }
     if existed && !creating && acc == libc::O_RDONLY && rel.contains(".bitcask.") {
         read_stall_point();
+        open_stall_point();
     }
     if existed && !creating && acc == libc::O_RDONLY && rel.contains(".bitcask.") && read_fault_due() {
         seterr(libc::EMFILE);
